@@ -75,11 +75,26 @@ func dyn(u string, attempt int) (world.Resp, bool) {
 			p = "/hub"
 		}
 	}
+	if k, ok := strings.CutPrefix(p, "/down/"); ok { // a URL that fails for good, in one of the ways a URL can fail
+		k = strings.TrimSuffix(k, ".png")
+		if st, err := strconv.Atoi(k); err == nil {
+			return world.Resp{Status: st, Header: map[string]string{"Content-Type": "text/plain"}, Body: "oops"}, true
+		}
+		if k == "refused" {
+			k = ""
+		}
+		return world.Resp{Err: true, ErrKind: k}, true
+	}
+	if k, ok := strings.CutPrefix(p, "/pdown/"); ok { // a page with such a URL among its assets
+		return world.Resp{Status: 200, Header: html, Body: `<!DOCTYPE html><html><body><img src="/a.png"><img src="/down/` + k + `.png"></body></html>`}, true
+	}
 	switch p {
 	case "/loop/a":
 		return world.Resp{Status: 302, Header: map[string]string{"Location": H + "/loop/b"}}, true
 	case "/loop/b":
 		return world.Resp{Status: 302, Header: map[string]string{"Location": H + "/loop/a"}}, true
+	case "/go": // a redirection whose Location is an absolute URL (of the crawled domain, when --domains-crawl names the site)
+		return world.Resp{Status: 302, Header: map[string]string{"Location": H + "/hub"}}, true
 	case "/self":
 		return world.Resp{Status: 301, Header: map[string]string{"Location": "/self"}}, true
 	case "/pn":
@@ -270,11 +285,13 @@ func sig(v *vsched.Violation) string {
 	return vsched.DefaultSignature(v)
 }
 
+var failKinds = []string{"503", "408", "425", "429", "404", "refused", "eof", "reset", "epipe", "timeout"}
+
 func scenarios(tier string) []scen {
 	fam := []struct{ name, seed string }{
 		{"endless-redirect-chain", H + "/r/0"}, {"redirect-loop", H + "/loop/a"}, {"self-redirect", H + "/self"},
 		{"nested-playlists", H + "/pn"}, {"nested-json", H + "/pj"}, {"nested-json-behind-redirects", H + "/pjr"}, {"page-lists-itself", H + "/selfpage"},
-		{"always-500", H + "/boom"}, {"429-then-200", H + "/limited"}, {"hub", H + "/hub"},
+		{"always-500", H + "/boom"}, {"429-then-200", H + "/limited"}, {"hub", H + "/hub"}, {"absolute-redirect-to-hub", H + "/go"},
 	}
 	dcs := map[string][]string{"off": nil, "site": {"s.example"}, "other": {"elsewhere.example"}, "exact-url": {H + "/in1"}}
 	var out []scen
@@ -288,7 +305,7 @@ func scenarios(tier string) []scen {
 							continue // with --domains-crawl active (whatever it matches) the depth limit does not apply - the property says so - and these families never end
 						}
 						hops := []int{0}
-						if f.name == "hub" || f.name == "page-lists-itself" {
+						if f.name == "hub" || f.name == "page-lists-itself" || f.name == "absolute-redirect-to-hub" {
 							hops = []int{0, 1, 2}
 						}
 						for _, h0 := range hops {
@@ -321,6 +338,14 @@ func scenarios(tier string) []scen {
 	for _, mh := range []int{0, 1, 2} {
 		for _, h0 := range []int{0, 1, 2} {
 			out = append(out, scen{Family: "hub", Seed: H + "/hub", SeedHops: h0, MaxRedirect: 1, MaxRetry: 0, MaxHops: mh, DC: "exact-url", Patterns: dcs["exact-url"]})
+		}
+	}
+	// always-failing URLs: every way a URL can fail (the statuses Zeno retries, one it does not, every kind of
+	// transport error), as the seed and as an asset, for every --max-retry
+	for _, k := range failKinds {
+		for _, rt := range []int{0, 1, 2} {
+			out = append(out, scen{Family: "always-failing-" + k, Seed: H + "/down/" + k, MaxRedirect: 1, MaxRetry: rt, DC: "off"},
+				scen{Family: "asset-always-failing-" + k, Seed: H + "/pdown/" + k, MaxRedirect: 1, MaxRetry: rt, DC: "off"})
 		}
 	}
 	// large limits (the defaults are --max-retry 5, --max-redirect 20): the bounds must hold for every value,
